@@ -191,8 +191,11 @@ func (cache *dirCache) Retrieve(target *core.BuildTarget, key []byte, outs []str
 // retrieveFiles retrieves the given set of files from the cache.
 func (cache *dirCache) retrieve(target *core.BuildTarget, key []byte, suffix string, outs []string) bool {
 	found, err := cache.retrieveFiles(target, cache.getPath(target, key, suffix), outs)
-	if err != nil && !os.IsNotExist(err) {
-		log.Warning("Failed to retrieve %s from dir cache: %s", target.Label, err)
+	if err != nil {
+		// Never report a hit when retrieval failed, even if the entry just disappeared under us.
+		if !os.IsNotExist(err) {
+			log.Warning("Failed to retrieve %s from dir cache: %s", target.Label, err)
+		}
 		return false
 	} else if found {
 		log.Debug("Retrieved %s: %s from dir cache", target.Label, suffix)
